@@ -46,12 +46,12 @@ Definition conv_bool (dflt : bool) (v : obool) : bool := match v with BVal b => 
 Definition conv_enum (values : list Z) (dflt : Z) (v : oenum) : Z :=
   match v with ECode c => if zmem c values then c else dflt | _ => dflt end.
 
-(* IEEE comparisons as Python's float < and > *)
+(* IEEE comparisons as Python's float < and <= *)
 Definition flt (a b : float) : bool := match PrimFloat.compare a b with FLt => true | _ => false end.
-Definition fgt (a b : float) : bool := match PrimFloat.compare a b with FGt => true | _ => false end.
+Definition fle (a b : float) : bool := match PrimFloat.compare a b with FLt | FEq => true | _ => false end.
 
-(* `if 1.0 > period or period > 3600.0: raise ValueError` *)
-Definition period_refused (p : float) : bool := flt p go_period_min || fgt p go_period_max.
+(* `if not 1.0 <= period <= 3600.0: raise ValueError` (the negated chained form also refuses a nan) *)
+Definition period_refused (p : float) : bool := negb (fle go_period_min p && fle p go_period_max).
 
 Definition float_of_Z (z : Z) : float := PrimFloat.of_uint63 (Uint63.of_Z z).
 
@@ -168,31 +168,10 @@ Record options := mkOptions {
   o_host_stats : bool; o_proc_stats : bool; o_collecting_period : float; o_stats_periods : list float;
   o_stats_histo : Z; o_irix : bool; o_tail_limit : Z; o_tailf_limit : Z }.
 
-(* the one-line switch for finding `synchro-default-aliasing`: when true, the model copies the class-level
-   default list instead of aliasing it (the behaviour after the obvious repair) *)
-Definition COPY_SYNCHRO_DEFAULT : bool := false.
-(* the one-line switch for finding F21: when true, a nan period is refused like any out-of-range value *)
-Definition REFUSE_NAN_PERIOD : bool := false.
-
-(* a nan is the only float that cannot be compared with the bounds *)
-Definition period_nan (f : float) : bool :=
-  match PrimFloat.compare f go_period_min, PrimFloat.compare f go_period_max with
-  | FNotComparable, _ | _, FNotComparable => true
-  | _, _ => false
-  end.
-Definition nan_guard (v : ofloat) : ofloat :=
-  match v with FVal p => if REFUSE_NAN_PERIOD && period_nan p then FNot else v | _ => v end.
-Definition nan_guard_l (v : operiods) : operiods :=
-  match v with
-  | PToks l => if REFUSE_NAN_PERIOD && existsb (fun o => match o with Some p => period_nan p | None => false end) l
-               then PToks [None] else v
-  | PAbsent => v
-  end.
-
 (* SupvisorsOptions.__init__ then check_options.
    `class_default` is the current value of the CLASS attribute SYNCHRO_DEFAULT_OPTIONS: when synchro_options is
-   absent or invalid, self.synchro_options IS that list object, and check_options removes items from it in place.
-   Returns the outcome and the class attribute afterwards. *)
+   absent or invalid, self.synchro_options is a COPY of that list (list(self.SYNCHRO_DEFAULT_OPTIONS)), so that
+   check_options never alters the class attribute. Returns the outcome and the class attribute afterwards. *)
 Definition build (class_default : list Z) (c : config) : result options * list Z :=
   let from_conf := conv_synchro (c_synchro_options c) in
   let sync0 := match from_conf with Some l => l | None => class_default end in
@@ -200,10 +179,7 @@ Definition build (class_default : list Z) (c : config) : result options * list Z
                then remove_first go_SynchronizationOptions_CORE sync0 else sync0 in
   let sync2 := if strs_empty (c_supvisors_list c) && zmem go_SynchronizationOptions_STRICT sync1
                then remove_first go_SynchronizationOptions_STRICT sync1 else sync1 in
-  let class_after := match from_conf with
-                     | Some _ => class_default
-                     | None => if COPY_SYNCHRO_DEFAULT then class_default else sync2
-                     end in
+  let class_after := class_default in
   match sync2 with
   | [] => (Crash ValueError, class_after)
   | _ =>
@@ -226,8 +202,8 @@ Definition build (class_default : list Z) (c : config) : result options * list Z
              (conv_enum go_StartingStrategies_values go_default_starting (c_starting c))
              failure
              (fst stats) (snd stats)
-             (conv_period (float_of_Z go_default_collecting_period) (nan_guard (c_collecting_period c)))
-             (conv_periods (map float_of_Z go_default_stats_periods) (nan_guard_l (c_stats_periods c)))
+             (conv_period (float_of_Z go_default_collecting_period) (c_collecting_period c))
+             (conv_periods (map float_of_Z go_default_stats_periods) (c_stats_periods c))
              (conv_int go_histo_min go_histo_max go_default_histo (c_stats_histo c))
              (conv_bool go_default_irix (c_irix c))
              (conv_size go_default_tail_limit (c_tail_limit c))
@@ -304,9 +280,7 @@ Definition spec_int (rg : Z * Z) (dflt : Z) (v : oint) : Z :=
   match v with IInt z => if in_range rg z then z else dflt | _ => dflt end.
 
 (* a period is in its documented range when 1 <= p <= 3600 (a nan is in no range) *)
-Definition fle (a b : float) : bool := match PrimFloat.compare a b with FLt | FEq => true | _ => false end.
-Definition fge (a b : float) : bool := match PrimFloat.compare a b with FGt | FEq => true | _ => false end.
-Definition period_in_range (p : float) : bool := fge p doc_period_min && fle p doc_period_max.
+Definition period_in_range (p : float) : bool := fle doc_period_min p && fle p doc_period_max.
 
 (* what the specification demands of one construction, given the lexed configuration.
    `dflt` is the documented default of synchro_options. *)
@@ -383,58 +357,19 @@ Definition spec_accepts_periods (c : config) (ob : result options) : bool :=
           end)
   end.
 
-(* known finding F21 `nan-period`: a nan is accepted by to_period / to_periods. The class: some lexed period is nan *)
-Definition class_nan (c : config) : bool :=
-  (match c_collecting_period c with FVal p => period_nan p | _ => false end)
-  || (match c_stats_periods c with
-      | PToks l => existsb (fun o => match o with Some p => period_nan p | None => false end) l
-      | PAbsent => false end).
+(* Both former findings (nan accepted as a period; class-level default of synchro_options altered by check_options)
+   are repaired in /repo: such behaviour is now a plain violation of the specification. Constructions in a row are
+   independent: each is judged against the documented default, and the class attribute must stay as documented. *)
+Definition check_one (c : config) (ob : result options * list Z) : bool :=
+  spec_accepts_core doc_synchro_default c (fst ob) && spec_accepts_periods c (fst ob)
+  && zl_eqb (snd ob) doc_synchro_default.
 
-(* known finding `synchro-default-aliasing`: the class-level default list of synchro_options is mutated by
-   check_options, so a later construction in the same process starts from a shrunk default.
-   The class: synchro_options defaulted while the class attribute is no longer the documented default. *)
-Definition class_aliasing (class_before : list Z) (c : config) : bool :=
-  match conv_synchro (c_synchro_options c) with
-  | None => negb (zl_eqb class_before doc_synchro_default)
-  | Some _ => false
-  end.
-
-Inductive verdict := VOk | VBad | VKnownNan | VKnownAliasing.
-
-Definition worst (a b : verdict) : verdict :=
-  match a, b with
-  | VBad, _ | _, VBad => VBad
-  | VOk, x => x
-  | x, _ => x
-  end.
-
-Definition check_one (class_before : list Z) (c : config) (ob : result options) : verdict :=
-  let v_core :=
-    if spec_accepts_core doc_synchro_default c ob then VOk
-    else if class_aliasing class_before c && spec_accepts_core class_before c ob then VKnownAliasing
-    else VBad in
-  let v_per :=
-    if spec_accepts_periods c ob then VOk else if class_nan c then VKnownNan else VBad in
-  worst v_core v_per.
-
-(* the class attribute before construction k is the one OBSERVED after construction k-1 *)
-Fixpoint check_from (class_before : list Z) (cs : list config) (obs : list (result options * list Z))
-  : list verdict :=
+Fixpoint check_all (cs : list config) (obs : list (result options * list Z)) : bool :=
   match cs, obs with
-  | c :: r, ob :: robs => check_one class_before c (fst ob) :: check_from (snd ob) r robs
-  | [], [] => []
-  | _, _ => [VBad]
-  end.
-Definition case_verdicts (c : case) : list verdict := check_from doc_synchro_default (fst c) (snd c).
-
-Definition verdict_eqb (a b : verdict) : bool :=
-  match a, b with
-  | VOk, VOk | VBad, VBad | VKnownNan, VKnownNan | VKnownAliasing, VKnownAliasing => true
+  | c :: r, ob :: robs => check_one c ob && check_all r robs
+  | [], [] => true
   | _, _ => false
   end.
+
 Definition spec_violations (cs : list case) : list nat :=
-  find_idx (fun c => existsb (verdict_eqb VBad) (case_verdicts c)) cs.
-Definition known_nan (cs : list case) : list nat :=
-  find_idx (fun c => existsb (verdict_eqb VKnownNan) (case_verdicts c)) cs.
-Definition known_aliasing (cs : list case) : list nat :=
-  find_idx (fun c => existsb (verdict_eqb VKnownAliasing) (case_verdicts c)) cs.
+  find_idx (fun c => negb (check_all (fst c) (snd c))) cs.
